@@ -177,6 +177,73 @@ def phase2(par=2, workers=8, per_file=12, maxchecks=4):
     for k in range(par):
         sh(f"git -C /repo worktree remove --force {M}/r{k}"); sh(f"git -C /verif worktree remove --force {M}/v{k}")
 
+def sample(par=2, workers=8, per_file=10, maxchecks=3):
+    """flipped order for a sample: checks first (fail-fast), the repository's tests only for mutants no check reports"""
+    setup_tool()
+    os.makedirs("/verif/mutants", exist_ok=True)
+    res_file = "/verif/mutants/sample.jsonl"
+    done = set()
+    if os.path.exists(res_file):
+        for l in open(res_file):
+            d = json.loads(l); done.add((d["file"], d["id"]))
+    todo = []
+    for f in TARGETS:
+        rc, out = sh(f"{M}/mutate -list /repo/{f}")
+        ms = [json.loads(l) for l in out.strip().split("\n") if l.startswith("{")]
+        random.Random(11).shuffle(ms)
+        k = per_file if len(ms) > 60 else max(3, per_file // 2)
+        for m in ms[:k]:
+            if (f, m["id"]) not in done:
+                todo.append((f, m))
+    random.Random(5).shuffle(todo)
+    print(len(todo), "mutants to run", flush=True)
+    import queue, threading
+    q = queue.Queue()
+    for t in todo: q.put(t)
+    lock = threading.Lock()
+    for k in range(par):
+        sh(f"mkdir -p {M}/s{k}; rsync -a --delete --exclude .git /repo/ {M}/s{k}/repo/; rsync -a --delete --exclude .cache --exclude replays --exclude .git --exclude mutants /verif/ {M}/s{k}/verif/")
+    def work(k):
+        R, V = f"{M}/s{k}/repo", f"{M}/s{k}/verif"
+        env = dict(ENV, VERIF_HOME=V, VERIF_REPO=R, VERIF_WORKERS=str(workers), VERIF_FAILFAST="1")
+        while True:
+            try: f, m = q.get_nowait()
+            except queue.Empty: return
+            sh(f"cp /repo/{f} {R}/{f}")
+            rc, out = sh(f"{M}/mutate -apply {m['id']} /repo/{f} {R}/{f}")
+            r = dict(file=f, **{k2: m[k2] for k2 in ("id", "line", "op", "desc", "func")})
+            r["checks"] = {}
+            rc, out = sh("go build ./... 2>&1", cwd=R, timeout=300)
+            if rc != 0:
+                r["status"] = "no-compile"
+            else:
+                detected = None
+                for c in TARGETS[f][1][:maxchecks]:
+                    t0 = time.time()
+                    rc, out = sh(f"{V}/check {c} quick", env=env, timeout=1500)
+                    cl = sorted(set(re.findall(r"clause=(\S+)", out)))
+                    r["checks"][c] = dict(exit=rc, clauses=cl[:5], secs=int(time.time() - t0))
+                    if rc == 1:
+                        detected = c
+                        break
+                r["detected_by"] = detected
+                r["status"] = "reported" if detected else "not-reported"
+                if not detected:
+                    pk = " ".join(TARGETS[f][0])
+                    rc, out = sh(f"go test -vet=off -count=1 -timeout 170s {pk} 2>&1", cwd=R, timeout=200)
+                    fails = [t for t in re.findall(r"^--- FAIL: (\S+)", out, re.M) if t != "ExampleClient"]
+                    bad_pk = [l for l in out.split("\n") if l.startswith("FAIL\t") and "gomqtt/client\t" not in l]
+                    hung = rc == 124 or "panic: test timed out" in out
+                    r["tests"] = "fail" if (fails or bad_pk or hung) else "pass"
+                    r["tests_by"] = fails[:3]
+            sh(f"cp /repo/{f} {R}/{f}")
+            with lock:
+                open(res_file, "a").write(json.dumps(r) + "\n")
+                print(f, m["id"], m["op"], r["status"], r.get("detected_by"), r.get("tests", ""), "|", m["desc"][:70], flush=True)
+    ts = [threading.Thread(target=work, args=(k,)) for k in range(par)]
+    for t in ts: t.start()
+    for t in ts: t.join()
+
 def report():
     p1 = [json.loads(l) for l in open(f"{M}/phase1.jsonl")] if os.path.exists(f"{M}/phase1.jsonl") else []
     from collections import Counter
@@ -195,7 +262,9 @@ def report():
 
 if __name__ == "__main__":
     cmd = sys.argv[1]
-    if cmd == "phase1":
+    if cmd == "sample":
+        sample(*[int(a) for a in sys.argv[2:]])
+    elif cmd == "phase1":
         phase1(workers=int(sys.argv[2]) if len(sys.argv) > 2 else 6)
     elif cmd == "phase2":
         phase2(*[int(a) for a in sys.argv[2:]])
